@@ -121,10 +121,20 @@ func (b *base) Run(ctx context.Context) error {
 		select {
 		case <-ctx.Done():
 			b.rec.add("CS%d", b.i)
+			sleepMs(b.spec.RunMs)
 		case <-b.stopCh:
+			// still unwinding for RunMs after its own Stop: a Run like this keeps watching its context, and
+			// records when the supervisor cancels it (which must not happen before every Stop has returned)
+			if b.spec.RunMs > 0 {
+				select {
+				case <-ctx.Done():
+					b.rec.add("CS%d", b.i)
+				case <-time.After(time.Duration(b.spec.RunMs) * time.Millisecond):
+				case <-b.teardown:
+				}
+			}
 		case <-b.teardown:
 		}
-		sleepMs(b.spec.RunMs)
 	case 1:
 		select {
 		case <-time.After(time.Duration(b.spec.RunMs) * time.Millisecond):
@@ -344,6 +354,7 @@ type supResult struct {
 	mainRes string
 	passes  int
 	leaked  int
+	gateLate int // ms by which a gate was passed (poll answered true) after its startup timeout had elapsed
 }
 
 func classifyRes(err error) string {
@@ -511,6 +522,23 @@ loop:
 			mrAt = rec.ts[i]
 		}
 	}
+	// a gate begins startupInitial before its first poll; a poll answered true later than the startup timeout
+	// after that means the timeout was not honoured
+	firstPoll := map[string]time.Duration{}
+	for i, e := range evs {
+		if strings.HasPrefix(e, "P") && strings.Contains(e, ":") {
+			g := e[1:strings.Index(e, ":")]
+			if _, ok := firstPoll[g]; !ok {
+				firstPoll[g] = rec.ts[i]
+			}
+			if strings.HasSuffix(e, ":1") {
+				elapsed := rec.ts[i] - firstPoll[g] + time.Duration(sc.StartupInitMs)*time.Millisecond
+				if lateBy := int((elapsed - time.Duration(sc.StartupTimeout)*time.Millisecond).Milliseconds()); lateBy > res.gateLate {
+					res.gateLate = lateBy
+				}
+			}
+		}
+	}
 	rec.mu.Unlock()
 	if sc.WB && firstStop >= 0 && mrAt >= 0 && mrAt-firstStop > time.Duration(sc.ShutdownMs)*time.Millisecond*7/10 {
 		res.late = true
@@ -545,7 +573,7 @@ func supHeader(sc SupScenario, r supResult, withEnd bool) string {
 			}
 			return 0
 		}
-		h += fmt.Sprintf(" end=hung%d.late%d.panic0.live%d", b2i(r.hung), b2i(r.late), r.live)
+		h += fmt.Sprintf(" end=hung%d.late%d.panic0.live%d.gl%d", b2i(r.hung), b2i(r.late), r.live, r.gateLate)
 	}
 	return h + " scn~" + encScenario(sc)
 }
@@ -732,6 +760,15 @@ var supCorpus = []SupScenario{
 		StartupInitMs: 1, StartupTimeout: 100, ShutdownMs: 400, WB: true},
 	{Mocks: []MockSpec{{Caps: "1110", Stop: "l", Outcome: "n", ReloadMs: 10}}, Triggers: []Trigger{{AtMs: 10, Kind: "hup"}, {AtMs: 13, Kind: "rtrig:0"}, {AtMs: 16, Kind: "term"}},
 		StartupInitMs: 1, StartupTimeout: 100, ShutdownMs: 400, WB: true},
+	// the last runnable keeps unwinding (and watching its context) for 14 ms after its Stop returned while the earlier
+	// ones are still being stopped, slowly: its context must stay alive until every Stop has returned
+	{Mocks: []MockSpec{{Caps: "0000", Stop: "f", StopMs: 6, Outcome: "n"}, {Caps: "0000", Stop: "f", StopMs: 6, Outcome: "n"}, {Caps: "0000", Stop: "f", RunMs: 14, Outcome: "n"}},
+		Triggers: []Trigger{{AtMs: 8, Kind: "term"}}, StartupInitMs: 1, StartupTimeout: 100, ShutdownMs: 1000, WB: true},
+	{Mocks: []MockSpec{{Caps: "1000", Stop: "f", StopMs: 8, Outcome: "n", ReadyPolls: 0}, {Caps: "0100", Stop: "l", RunMs: 12, Outcome: "c"}},
+		Triggers: []Trigger{{AtMs: 10, Kind: "int"}}, StartupInitMs: 1, StartupTimeout: 100, ShutdownMs: 1000, WB: true},
+	// readiness comes only after the startup timeout (polls at 10, 30, 70, 150 ms; timeout 80 ms; ready at 150 ms)
+	{Mocks: []MockSpec{{Caps: "1000", Stop: "f", Outcome: "n", ReadyPolls: 7}, {Caps: "0000", Stop: "f", Outcome: "n"}},
+		StartupInitMs: 10, StartupTimeout: 80, ShutdownMs: 1000, WB: true},
 	// two concurrent Shutdown() callers while running
 	{Mocks: []MockSpec{{Caps: "0000", Stop: "f", StopMs: 5, Outcome: "n"}, {Caps: "1100", Stop: "l", Outcome: "c", ReadyPolls: 1}}, Triggers: []Trigger{{AtMs: 30, Kind: "user"}, {AtMs: 30, Kind: "user"}, {AtMs: 31, Kind: "int"}},
 		StartupInitMs: 1, StartupTimeout: 100, ShutdownMs: 1000, WB: true},
